@@ -76,7 +76,7 @@ def batch_family(M):
 
 
 _EM = type('EntityMeta', (type,), {})                # Param.eval takes the raw key of a referenced object: a stand-in object with a two-column key
-_REF = _EM('Ref', (), {'_get_raw_pkval_': lambda self: (100, 101)})
+_REF = _EM('Ref', (), {'_get_raw_pkval_': lambda self: (100, 101), '_pkval_': (100, 101), '_status_': 'loaded'})
 
 
 def _ask_find(M, t):
@@ -148,3 +148,84 @@ def case(cfg, values):
 
 def spec(cfg, i, path):
     return path.outcome == 'ret' and path.value == []
+
+
+# ------------------------------------------------------------------ the statement caches of saving (_update_sql_cache_, _insert_sql_cache_, _delete_sql_cache_)
+BOUND_SAVE = '21 saving operations on two objects (values present / missing; 4 sets of attributes read before; 2 sets written; 3 kinds of new object; delete): every ordered pair, the second one warm vs cold'
+
+
+def save_ops(M):
+    ops = []
+    for oid in (1, 2):
+        for reads in ((), ('a',), ('a', 'b'), ('owner',)):
+            for writes in (('b',), ('a', 'b')):
+                ops.append(('update', oid, reads, writes))
+    ops += [('insert', 10, (), ()), ('insert', 11, (), ('a',)), ('insert', 12, (), ('a', 'b', 'owner')), ('delete', 1, ('a',), ()), ('delete', 2, (), ())]
+    return ops
+
+
+def _save_run(M, op, rec):
+    kind, oid, reads, writes = op
+    try:
+        with orm.db_session:
+            if kind == 'insert':
+                kw = {}
+                if 'a' in writes: kw['a'] = 5
+                if 'b' in writes: kw['b'] = 'new'
+                if 'owner' in writes: kw['owner'] = M.Owner[1]
+                M.Thing(id=oid, **kw)
+            else:
+                o = M.Thing[oid]
+                for r in reads: getattr(o, r)
+                if kind == 'delete': o.delete()
+                else:
+                    if 'a' in writes: o.a = 77
+                    if 'b' in writes: o.b = 'changed'
+            del rec[:]                                   # only the statements of the flush are compared
+            orm.flush()
+            out = list(rec)
+            orm.rollback()
+        return ('ok', out)
+    except Exception as e:
+        return (type(e).__name__, list(rec))
+
+
+def save_configs(tier):
+    n = len(save_ops(model()))
+    return [dict(first=i) for i in range(n)]
+
+
+def save_case(cfg, values):
+    def call():
+        M = model(); ops = save_ops(M); bad = []
+        rec = []
+        real = core.Database._exec_sql
+        def _exec_sql(database, sql, arguments=None, returning_id=False, start_transaction=False):
+            if sql.split()[0].upper() in ('UPDATE', 'INSERT', 'DELETE'): rec.append((sql, repr(arguments)))
+            return real(database, sql, arguments, returning_id, start_transaction)
+        core.Database._exec_sql = _exec_sql
+        def data():
+            with orm.db_session:
+                for t in ('Thing', 'Crate', 'Owner'): M.db.execute('delete from "%s"' % t)
+                M.db.execute('insert into Owner(id) values (1)')
+                M.db.execute("insert into Thing(id, a, b, note, owner, classtype) values (1, 1, 'x', 'n', 1, 'Thing'), (2, null, '', '', null, 'Thing')")
+        def clear_save_caches():
+            for E in (M.Owner, M.Thing, M.Gadget, M.Crate):
+                for name in ('_update_sql_cache_', '_insert_sql_cache_', '_delete_sql_cache_', '_find_sql_cache_', '_batchload_sql_cache_', '_load_sql_cache_'):
+                    c = getattr(E, name, None)
+                    if c is not None: c.clear()
+            M.db._constructed_sql_cache.clear()
+        try:
+            first = ops[cfg['first']]
+            for second in ops:
+                data(); clear_save_caches(); cold = _save_run(M, second, rec)
+                data(); clear_save_caches(); _save_run(M, first, rec); data(); warm = _save_run(M, second, rec)
+                if warm != cold: bad.append(('after %r' % (first,), 'operation %r' % (second,), 'warm: %r' % (warm,), 'cold: %r' % (cold,)))
+                if cold[0] not in ('ok',): bad.append(('the operation fails by itself', repr(second), repr(cold)))
+        finally:
+            core.Database._exec_sql = real
+            try: data()
+            except Exception: pass
+            core.local.db2cache.clear(); core.local.db_context_counter = 0; core.local.db_session = None
+        return bad[:3]
+    return Case(call, {}, [])
